@@ -687,14 +687,17 @@ def run_job(job, seed=0, replay_dir=None, cross_check=0):
             return Sc, Outcome(exc=e)
 
     known_excl = [mk_not(p) for _, p in known]
+    blind_pcs = []   # path conditions of the paths the model could not follow to the end: each is probed on the real code
     try:
         for path in ex.explore(body):
             res["paths"] += 1
             if path.poison:
                 res["inconclusive"].append(f"path {res['paths']}: {path.poison}")
+                blind_pcs.append(list(path.pc))
                 continue
             if path.exc is not None and isinstance(path.exc, Unsupported):
                 res["inconclusive"].append(f"path {res['paths']}: UNSUPPORTED {path.exc}")
+                blind_pcs.append(list(path.pc))
                 continue
             if path.exc is not None and isinstance(path.exc, (RuntimeError,)) and "no active explorer" in str(path.exc):
                 res["inconclusive"].append(f"path {res['paths']}: {path.exc}")
@@ -840,7 +843,7 @@ def run_job(job, seed=0, replay_dir=None, cross_check=0):
         res["inconclusive"].append(f"harness error: {e!r}\n{traceback.format_exc()[-1500:]}")
     if (res["inconclusive"] or res["mismatches"]) and not res["violations"] and not job.expect_canary_sat:
         try:
-            fallback_probe(job, S, V, ex, res, real_outcome, known, replay_dir)
+            fallback_probe(job, S, V, ex, res, real_outcome, known, replay_dir, blind_pcs=blind_pcs)
         except Exception as e:
             res["inconclusive"].append(f"fallback probe failed: {e!r}")
     if getattr(job, "offgrid", None) and not res["violations"] and not job.expect_canary_sat:
@@ -879,7 +882,7 @@ def _atoms(formulas, limit=400):
     return out
 
 
-def fallback_probe(job, S, V, ex, res, real_outcome, known, replay_dir, budget=160):
+def fallback_probe(job, S, V, ex, res, real_outcome, known, replay_dir, budget=160, blind_pcs=(), path_budget=240):
     """The code could not be executed symbolically (unsupported library call ...).  Rather than staying blind, run the REAL
     code on solver-chosen inputs aimed at the oracle's own case boundaries and at the extremes of every input, and evaluate the
     property on the real outcome.  A violation found this way is real (it is a replay); absence of one proves nothing and the job
@@ -911,6 +914,9 @@ def fallback_probe(job, S, V, ex, res, real_outcome, known, replay_dir, budget=1
     for b in V.bools:
         targets += [b, z3.Not(b)]
     targets = targets[:budget]
+    # one probe per path the model had to abandon: the decisions taken before the unsupported call (window layouts, sizes,
+    # branch outcomes) select the input, so every structural case the exploration had already separated is tried on the real code
+    targets += [mk_and(*pc) for pc in list(blind_pcs)[:path_budget] if pc]
     models = []
     r, m = ex.model_of(*cons, *excl)
     if r == z3.sat:
@@ -1008,12 +1014,14 @@ def offgrid_probe(job, S, V, ex, res, real_outcome, known, replay_dir, budget=12
     from . import findings
     cons = [*V.grid]
     excl = [mk_not(p) for _, p in known]
-    n = getattr(job, "n", None)
+    oracle = getattr(job, "offgrid_oracle", job)     # whose comparisons are the boundaries to aim at
+    prepare = getattr(job, "offgrid_prepare", lambda Sc: Sc)
+    n = getattr(oracle, "n", None)
     targets = []
     if n is not None:
         try:
             dummy = Outcome(flags=[z3.Int(f"dummy!f{i}") for i in range(n)], mask=[FALSE] * n, shape=(n,), dtype="uint8")
-            for a in _atoms([f for _, f in job.holds(S, dummy)]):
+            for a in _atoms([f for _, f in oracle.holds(S, dummy)]):
                 if any(str(c).startswith("dummy!") for c in _consts(a)):
                     continue
                 if a.decl().kind() != z3.Z3_OP_EQ:
@@ -1029,8 +1037,8 @@ def offgrid_probe(job, S, V, ex, res, real_outcome, known, replay_dir, budget=12
     seen = set()
     for m in models:
         Sc0 = concretize(S, m)
-        for num, den in ((1, 10), (7, 3)):
-            Sc = _scale_floats(Sc0, num, den)
+        for num, den in getattr(job, "offgrid_scales", ((1, 10), (7, 3))):
+            Sc = prepare(_scale_floats(Sc0, num, den))
             key = json.dumps(jsonable(Sc), sort_keys=True)
             if key in seen:
                 continue
@@ -1043,8 +1051,7 @@ def offgrid_probe(job, S, V, ex, res, real_outcome, known, replay_dir, budget=12
             res["offgrid_probes"] = res.get("offgrid_probes", 0) + 1
             bad = [lab for lab, f in robl if not concrete_truth(None, f)]
             if bad:
-                res["violations"].append(_violation(job, bad[0] + " [inputs off the dyadic grid: the property's comparisons are exact in "
-                                                    "binary64, the code's are not]", Sc, rout, rout, None, replay_dir,
+                res["violations"].append(_violation(job, bad[0] + " [inputs off the dyadic grid G]", Sc, rout, rout, None, replay_dir,
                                                     via="off-grid probe of the real code"))
                 return
 
